@@ -635,23 +635,31 @@ fn create_doc_without_preceding_comment(
         ]);
       }
       if e.e2.precedence() == expression.precedence() {
-        // For the commutative operators, we can remove parentheses.
-        match e.operator {
-          expr::BinaryOperator::MINUS | expr::BinaryOperator::DIV | expr::BinaryOperator::MOD => {}
-          _ => {
-            return Document::concat(vec![
-              create_doc_for_subexpression_considering_precedence_level(
-                heap,
-                comment_store,
-                expression,
-                &e.e1,
-                true,
-              ),
-              operator_preceding_comments_docs,
-              operator_doc,
-              create_doc(heap, comment_store, &e.e2),
-            ]);
-          }
+        // Parentheses around the right operand can only be removed when it repeats the same
+        // associative operator: `a + (b + c)` is `a + b + c`, but `a * (b / c)` is not `a * b / c`.
+        let same_operator_on_the_right =
+          matches!(e.e2.as_ref(), expr::E::Binary(e2) if e2.operator == e.operator);
+        let is_associative = matches!(
+          e.operator,
+          expr::BinaryOperator::PLUS
+            | expr::BinaryOperator::MUL
+            | expr::BinaryOperator::AND
+            | expr::BinaryOperator::OR
+            | expr::BinaryOperator::CONCAT
+        );
+        if same_operator_on_the_right && is_associative {
+          return Document::concat(vec![
+            create_doc_for_subexpression_considering_precedence_level(
+              heap,
+              comment_store,
+              expression,
+              &e.e1,
+              true,
+            ),
+            operator_preceding_comments_docs,
+            operator_doc,
+            create_doc(heap, comment_store, &e.e2),
+          ]);
         }
       }
       // Safest rule
